@@ -102,6 +102,13 @@ type World struct {
 	// Tap sees every datagram written by a real server, in canonical order,
 	// before routing. Returning false suppresses default routing.
 	Tap func(wr *Write) bool
+	// OnDeliver sees every datagram at the moment it is handed to a real
+	// server's socket (after translation of canonical transaction ids it is
+	// what the server reads).
+	OnDeliver func(c *SimConn, from *net.UDPAddr, b []byte, accepted bool)
+	// OnBeforeDeliver runs just before a datagram is handed over (the server
+	// has not seen it yet).
+	OnBeforeDeliver func(c *SimConn, from *net.UDPAddr, b []byte)
 	// OnQuiescent runs invariants after every settle+route.
 	OnQuiescent func()
 
@@ -358,6 +365,35 @@ func (w *World) Pump(done func() bool, idle time.Duration, maxEvents int) {
 	}
 }
 
+// PumpUntil advances fake time to t, processing queued events and system
+// activity on the way (with invariants at every quiescent point).
+func (w *World) PumpUntil(t time.Time, maxEvents int) {
+	for n := 0; n < maxEvents && !w.Failed(); n++ {
+		w.Settle()
+		w.Route()
+		if w.OnQuiescent != nil && !w.Failed() {
+			w.OnQuiescent()
+		}
+		if w.Failed() || !time.Now().Before(t) {
+			return
+		}
+		next := t
+		if w.q.Len() > 0 && w.q[0].At.Before(next) {
+			next = w.q[0].At
+		}
+		if d := time.Until(next); d > 0 {
+			if w.Sleep(d) {
+				continue
+			}
+		}
+		if w.q.Len() > 0 && !w.q[0].At.After(time.Now()) {
+			ev := heap.Pop(&w.q).(*Event)
+			w.Events++
+			ev.Do()
+		}
+	}
+}
+
 // ---------------------------------------------------------------- API calls
 
 type Call struct {
@@ -542,13 +578,21 @@ func (c *SimConn) SetWriteDeadline(t time.Time) error { return nil }
 // Inject hands one datagram to the server's read loop (which must be blocked in
 // ReadFrom, true at any quiescent point) and does not wait.
 func (c *SimConn) Inject(from *net.UDPAddr, b []byte) bool {
+	orig := b
 	b = c.translateIn(from, b)
+	if c.W.OnBeforeDeliver != nil {
+		c.W.OnBeforeDeliver(c, from, orig)
+	}
+	ok := false
 	select {
 	case c.inbox <- inPkt{b, from}:
-		return true
+		ok = true
 	default:
-		return false
 	}
+	if c.W.OnDeliver != nil {
+		c.W.OnDeliver(c, from, orig, ok)
+	}
+	return ok
 }
 
 // InjectBlocking waits for the read loop to come back to ReadFrom (event mode
@@ -736,6 +780,14 @@ func (w *World) Summ(d benc.Dict, raw []byte, peer string, out bool) string {
 		}
 		if _, ok := w.tlabels[peer+"|"+t]; ok {
 			dd = d.Set("t", "")
+		}
+	}
+	if rr, ok := dd.Dict("r"); ok {
+		if vs, ok := rr.List("values"); ok && len(vs) > 1 {
+			// the peer store hands peers back in map order
+			cp := append(benc.List(nil), vs...)
+			sort.SliceStable(cp, func(i, j int) bool { return fmt.Sprint(cp[i]) < fmt.Sprint(cp[j]) })
+			dd = dd.Set("r", rr.Set("values", cp))
 		}
 	}
 	h := sha256.Sum256(benc.Encode(dd))
